@@ -226,13 +226,15 @@ PROPS = {
                 "running XClient over MultipleServersDiscovery, half of them with the watch loop stalled by a blocking selector so that "
                 "bursts overflow the watcher channel, all four stock strategies; distinct = distinct model-input line; non-trivial = "
                 "at least 2 servers / 3 snapshots",
-        "theorems": ["C14_converges_to_last_published", "C14_last_published_is_last_Pub", "C14_filter_keeps_exactly", "C14_keep_rule"],
+        "theorems": ["C14_converges_to_last_published", "C14_last_published_is_last_Pub", "C14_filter_keeps_exactly", "C14_keep_rule",
+                     "C14_keep_rule_on_raw_metadata", "C14_filter_on_raw_metadata", "C14_raw_rule_refines_to_the_model"],
         "assumptions": ["url.ParseQuery's result is an input to the filter model (values of state and group, in order)",
                         "a publication racing with NewXClient itself (between GetServices and WatchService) is outside the quantifier",
                         "DNSDiscovery.lookup uses the same notifyWatcher after the repair but cannot be exercised offline: its tie to the "
                         "model is by reading only",
                         "convergence is awaited by polling the client's server set for at most 2 s"],
-        "trusted": ["/repo/client/verif_export.go: VerifXClientServers, VerifFilterByStateAndGroup, VerifXClientSelect"],
+        "trusted": ["/repo/client/verif_export.go: VerifXClientServers, VerifFilterByStateAndGroup, VerifXClientSelect",
+                    "url.ParseQuery is modelled in Server/Gateway.v and tied to Go's by the raw-metadata correspondence (fltraw lines)"],
         "level_text": "Theorem for every interleaving of publications with the watch loop's receptions over a bounded channel that drops "
                       "its oldest snapshot when full: once updates stop and the loop has emptied the channel, the snapshot it applied "
                       "last is the last one published; plus the filter rule as an iff. Selection from the applied set is C11. The models "
@@ -464,12 +466,14 @@ PROPS = {
                 "weight-metadata grammar; distinct = distinct model-input line; non-trivial = at least 2 servers and a "
                 "selection run covering a full window",
         "theorems": ["C12_round_robin_exact", "C12_round_robin_after_any_history", "C12_weighted_ring_counts",
-                     "C12_weighted_window_proportional", "C12_update_is_fresh_build", "C12_equal_weights_is_round_robin"],
+                     "C12_weighted_window_proportional", "C12_update_is_fresh_build", "C12_equal_weights_is_round_robin",
+                     "C12_weight_from_raw_metadata"],
         "assumptions": ["Go map iteration order is an input (slice order read through client.VerifSelectorOrder)",
-                        "url.ParseQuery/strconv.Atoi results are inputs to the model",
+                        "url.ParseQuery / strconv.Atoi are modelled (Server/Gateway.v, XClient/Metadata.v) and compared with "
+                        "createWeighted on raw metadata strings (wraw lines); the selection histories still take the parsed weights",
                         "weights are unbounded integers in the model; sums beyond the int range / ring allocations that "
                         "exhaust memory are not modelled"],
-        "trusted": ["/repo/client/verif_export.go (build tag verif): VerifNewSelector, VerifSelectorOrder"],
+        "trusted": ["/repo/client/verif_export.go (build tag verif): VerifNewSelector, VerifSelectorOrder, VerifCreateWeighted"],
         "level_text": "Theorems for all n, all non-negative weight vectors with positive sum, all cursor positions and all "
                       "update/selection histories (ring count = weight by invariant induction; windows of a cyclic cursor "
                       "are rotations) about the Gallina model of roundRobinSelector / weightedRoundRobinSelector; the model "
